@@ -62,14 +62,18 @@ Qed.
 
 (* ------------------------------------------------------------------ the two normalisers *)
 
-(* two additional symbols in a row, or a symbol at the end: flatten_name_parts keeps a space that Name::new drops,
-   so a name bound as `a+-b` or `a+` is looked up under a text that is never a scope key *)
+(* two additional symbols in a row, or a symbol at the end: the original flatten_name_parts kept a space that Name::new drops,
+   so a name bound as `a+-b` or `a+` was looked up under a text that is never a scope key *)
 Definition parts_a_plus_minus_b : list str := [[97]; [43]; [45]; [98]]%N.
 Definition parts_a_plus : list str := [[97]; [43]]%N.
 
 Lemma normal_form_refuted_witness :
-  flatten_parts parts_a_plus_minus_b <> name_new parts_a_plus_minus_b /\ flatten_parts parts_a_plus <> name_new parts_a_plus.
+  flatten_parts_orig parts_a_plus_minus_b <> name_new parts_a_plus_minus_b /\ flatten_parts_orig parts_a_plus <> name_new parts_a_plus.
 Proof. split; vm_compute; discriminate. Qed.
+
+(* after the repair both sides use one normal form *)
+Lemma normal_form : forall ps, flatten_parts ps = name_new ps.
+Proof. reflexivity. Qed.
 
 (* only a and b are bound: `a-b` is a, minus, b;  when `a-b` is bound too it is one name *)
 Definition key_a : str := [97%N].
